@@ -28,6 +28,8 @@ let () =
 let () =
   Modelrun_ext.register reg;
   Alloc_driver.register reg;
+  Pages_driver.register reg;
+  Monitor_driver.register reg;
   try
     while true do
       let line = input_line stdin in
